@@ -3,6 +3,15 @@
 # the evidence next to what the engine measured.
 
 PROPS = {
+    "C05": {
+        "groups": [
+            {"pkg": "server", "tags": "verif,test", "harness": "^verifH_C05_file_present", "unwind": 5},
+            {"pkg": "server", "tags": "verif,test", "harness": "^verifH_C05_crash", "unwind": 5, "replay": "symbolic",
+             "replay_note": "the crash point is ghost state of the symbolic disk (completed system calls persist, the rest of the operation is lost); the natively replayable form of the same states is the file-present-but-empty harness"},
+        ],
+        "bounds": {"crash points": "every disk system call boundary of first start (<= 6), of one authorization / report / conflicting authorization (<= 2), and the create-then-write window of each of the 5 files the server writes"},
+        "outside": ["torn or reordered writes, fsync semantics, power loss", "SIGKILL timing experiments on a running workload"],
+    },
     "C04": {
         "groups": [
             {"pkg": "server", "tags": "verif,test", "harness": "^verifH_C04_", "unwind": 5},
